@@ -1,5 +1,7 @@
 import BreezyVerif.Model.C04
 import BreezyVerif.Lemmas.C04
+import BreezyVerif.Lemmas.C04Fault
+import BreezyVerif.Lemmas.C04Enabled
 /-!
 C04 — pack repositories are crash-atomic.  Theorems.
 
@@ -159,7 +161,10 @@ theorem commit_crash_atomic (chk : Bool) (d : Disk) (v : View) (plan : Plan) (tm
       rw [hobs s hs] at hn; cases hn
   cases plan with
   | noAutopack => exact plain none (by intro s h; cases h) rfl
-  | error => exact plain none (by intro s h; cases h) rfl
+  | error =>
+    -- the planner raised: only the (unlisted) new pack was written
+    have h := safe_crash_atomic chk d ops hc hpre0 k
+    exact ⟨h.1, Or.inl h.2⟩
   | combine s =>
     cases s with
     | nil => exact plain (some []) (by intro s h; cases h; rfl) rfl
@@ -468,6 +473,63 @@ theorem commit_ops_enabled (chk : Bool) (d : Disk) (v : View) (tmp0 new0 : Nat) 
     simp [commitOpsWith, newPackOps, finishOps, idxExts, saveOps, upTmp, runE, run, step, Enabled, rm,
       List.mem_filter, hl]
 
+/-! ### enabledness on every path (the total `step` is never atomic "for the wrong reason") -/
+
+/-- **No non-tolerated transport call of a commit / fetch / autopack can fail**,
+whatever the plan: `runT` (which fails at the first call whose precondition does
+not hold, except the `delete`s of `_clear_obsolete_packs` and the `move`s of
+`_obsolete_packs`, whose errors the real code catches) runs the whole operation
+list.  So outside those tolerated calls `step` never takes a "missing file" /
+"stream not open" / "lock already held" branch. -/
+theorem commit_ops_enabled_all (chk : Bool) (d : Disk) (v : View) (plan : Plan) (tmp0 new0 tmp1 new1 : Nat)
+    (hl : d.locked = false) :
+    runT d (commitOpsWith chk d v plan tmp0 new0 tmp1 new1)
+      = some (run d (commitOpsWith chk d v plan tmp0 new0 tmp1 new1)) := by
+  have hpre := newPackOps_enabled chk d tmp0 false new0
+  have hl0 : (run d (newPackOps chk (upTmp tmp0 false) new0)).locked = false := by
+    rw [run_locked _ _ (newPackOps_noLock chk _ new0)]; exact hl
+  cases plan with
+  | noAutopack => exact runT_append_some _ _ _ hpre (saveOps_enabled chk _ d _ none hl0)
+  | error => exact hpre
+  | combine s =>
+    cases s with
+    | nil => exact runT_append_some _ _ _ hpre (saveOps_enabled chk _ d _ (some []) hl0)
+    | cons a t =>
+      have hpre1 := newPackOps_enabled chk (run d (newPackOps chk (upTmp tmp0 false) new0)) tmp1 true new1
+      have hboth := runT_append_some _ _ _ hpre hpre1
+      have hl1 : (run d (newPackOps chk (upTmp tmp0 false) new0 ++ newPackOps chk (upTmp tmp1 true) new1)).locked
+          = false := by
+        rw [run_append, run_locked _ _ (newPackOps_noLock chk _ new1)]; exact hl0
+      exact runT_append_some _ _ _ hboth (saveOps_enabled chk _ d _ (some (a :: t)) hl1)
+
+/-- the same for `pack()` / `pack(hint)`, including the already-optimal abort
+and the final `_clear_obsolete_packs()` -/
+theorem pack_ops_enabled (chk : Bool) (d : Disk) (v : View) (s : List Nat) (optimal clean : Bool)
+    (tmp1 new1 : Nat) (hl : d.locked = false) :
+    runT d (packOpsSel chk d v s optimal clean tmp1 new1)
+      = some (run d (packOpsSel chk d v s optimal clean tmp1 new1)) := by
+  have htail : ∀ (c : Bool) (d0 d' : Disk), runT d0 (if c then clearOps d' [] else [])
+      = some (run d0 (if c then clearOps d' [] else [])) := by
+    intro c d0 d'
+    cases c
+    · rfl
+    · exact runT_tolerated _ _ (clearOps_tolerated d' [])
+  unfold packOpsSel
+  split
+  · rfl
+  · split
+    · exact newPackOps_enabled chk d tmp1 true new1
+    · simp only []
+      apply runT_append_some _ _ _ ?_ (htail clean _ _)
+      split
+      · exact saveOps_enabled chk d d v (some []) hl
+      · split
+        · simp [runT, run, step, Enabled, rm, upTmp]
+        · have hpre := newPackOps_enabled chk d tmp1 true new1
+          have hl0 : (run d (newPackOps chk (upTmp tmp1 true) new1)).locked = false := by
+            rw [run_locked _ _ (newPackOps_noLock chk _ new1)]; exact hl
+          exact runT_append_some _ _ _ hpre (saveOps_enabled chk _ d _ (some s) hl0)
+
 /-! ### leftovers -/
 
 /-- **Leftover files are harmless**: arbitrary extra files (complete or torn) in
@@ -492,6 +554,49 @@ theorem leftovers_harmless (chk : Bool) (revsOf : Nat → List Nat) (d : Disk) (
       exact List.mem_append_right _ (h1 f hf)
   show d.names.all (ready chk d') = d.names.all (ready chk d)
   exact List.all_congr rfl hr
+
+/-- **Leftovers of crashed or failed operations are harmless**, including what
+the error paths leave in `packs/` and `indices/`: arbitrary extra files that are
+in `upload/` or `obsolete_packs/` OR belong to a pack that `pack-names` does not
+list (a finished but never-listed pack, half-written indices of an aborted one)
+change neither which packs are listed nor whether the listed packs are
+complete. -/
+theorem leftovers_harmless_unlisted (chk : Bool) (revsOf : Nat → List Nat) (d : Disk) (extra extraTorn : List File)
+    (h : ∀ f ∈ extra, f.dir = .upload ∨ f.dir = .obsolete ∨ f.stem ∉ d.names) :
+    let d' : Disk := { d with files := extra ++ d.files, torn := extraTorn ++ d.torn }
+    complete chk d' = complete chk d ∧ visible revsOf d' = visible revsOf d := by
+  intro d'
+  refine ⟨?_, rfl⟩
+  rw [Bool.eq_iff_iff]
+  simp only [complete, List.all_eq_true]
+  constructor
+  · intro hall n hn
+    have h1 := hall n hn
+    rw [ready_iff] at h1 ⊢
+    intro f hf
+    have ht := packFiles_touches (ns := [n]) hf (by simp)
+    rcases List.mem_append.mp (h1 f hf) with hfe | hfd
+    · rcases h f hfe with hd | hd | hd
+      · simp [touches, hd] at ht
+      · simp [touches, hd] at ht
+      · have hst : f.stem = n := by
+          have := ht; simp [touches] at this; exact this.2
+        exact absurd (hst ▸ hn) hd
+    · exact hfd
+  · intro hall n hn
+    have h1 := hall n hn
+    rw [ready_iff] at h1 ⊢
+    intro f hf
+    exact List.mem_append_right _ (h1 f hf)
+
+/-- non-vacuity: a finished, never-listed pack `9` and a torn index of an
+aborted pack `8` next to the listed pack `0` -/
+example :
+    let d : Disk := ⟨[0], packFiles true 0, [], false⟩
+    let extra := packFiles true 9 ++ [⟨.upload, 3, .pack⟩]
+    (∀ f ∈ extra, f.dir = .upload ∨ f.dir = .obsolete ∨ f.stem ∉ d.names) ∧
+    complete true { d with files := extra ++ d.files, torn := [⟨.indices, 8, .rix⟩] ++ d.torn } = true := by
+  decide
 
 /-! ### why the freshness hypothesis is needed -/
 
@@ -542,6 +647,543 @@ theorem pack_hint_collision_witness :
     complete false d = true ∧
     complete false (run d ((packOps false d ⟨[0, 1], [0, 1]⟩ (some [1]) false false 4 1).take 2)) = false ∧
     (run d (packOps false d ⟨[0, 1], [0, 1]⟩ (some [1]) false false 4 1)).names = [0, 1] := by
+  decide
+
+/-! ## Error paths: the operation FAILS with an exception instead of being killed
+
+`commitFaultWith` / `packFaultSel` (Model/C04Fault.lean) give the complete list
+of operations the real code executes when its `f.pos`-th transport call raises
+(before or after taking effect; I/O error, `TransportError`,
+`KeyboardInterrupt`, or an exception of a read made just before it): the
+prefix, then whatever the `finally:` / `except` clauses and
+`abort_write_group` do.  The theorems quantify over EVERY fault and over every
+crash prefix `k` of the resulting list (a crash inside the error handling). -/
+
+/-- **Generic.**  Any executed list `pre ++ sv ++ tail` in which `pre` does not
+touch listed packs, `sv` has the shape of an executed `_save_pack_names`
+(`SaveShape`: nothing / lock / lock+unlock / lock, `putNames N`, allowed
+operations) and `tail` only deletes in `obsolete_packs/`: after every prefix
+every listed pack is complete and `pack-names` is the old list or `N`. -/
+theorem shape_crash_atomic (chk : Bool) (d : Disk) (pre sv tail : List Op) (N : List Nat) (allowed : List Op)
+    (hc : complete chk d = true)
+    (hpre : ∀ op ∈ pre, safeOp d.names op = true)
+    (hready : ∀ n ∈ N, ready chk (run d pre) n = true)
+    (hallowed : ∀ op ∈ allowed, safeOp N op = true)
+    (htail : ∀ op ∈ tail, ∀ ns, safeOp ns op = true)
+    (hs : SaveShape N allowed sv) (k : Nat) :
+    complete chk (run d ((pre ++ sv ++ tail).take k)) = true ∧
+    ((run d ((pre ++ sv ++ tail).take k)).names = d.names ∨
+     (run d ((pre ++ sv ++ tail).take k)).names = N) := by
+  have safe3 : ∀ sv' : List Op, (∀ op ∈ sv', safeOp d.names op = true) →
+      complete chk (run d ((pre ++ sv' ++ tail).take k)) = true ∧
+      ((run d ((pre ++ sv' ++ tail).take k)).names = d.names ∨
+       (run d ((pre ++ sv' ++ tail).take k)).names = N) := by
+    intro sv' h
+    have hall : ∀ op ∈ pre ++ sv' ++ tail, safeOp d.names op = true := by
+      intro op hop
+      simp only [List.mem_append] at hop
+      rcases hop with (hop | hop) | hop
+      · exact hpre op hop
+      · exact h op hop
+      · exact htail op hop _
+    have := safe_crash_atomic chk d _ hc hall k
+    exact ⟨this.1, Or.inl this.2⟩
+  rcases hs with rfl | rfl | rfl | ⟨post, rfl, hpost⟩
+  · exact safe3 [] (by simp)
+  · exact safe3 [Op.lock] (by intro op h; simp at h; subst h; rfl)
+  · exact safe3 [Op.lock, Op.unlock] (by intro op h; simp at h; rcases h with rfl | rfl <;> rfl)
+  · have hsplit : pre ++ Op.lock :: Op.putNames N :: post ++ tail
+        = (pre ++ [Op.lock]) ++ Op.putNames N :: (post ++ tail) := by simp
+    rw [hsplit]
+    apply txn_crash_atomic chk d (pre ++ [Op.lock]) (post ++ tail) N hc
+    · intro op hop
+      simp only [List.mem_append, List.mem_singleton] at hop
+      rcases hop with hop | rfl
+      · exact hpre op hop
+      · rfl
+    · intro n hn
+      rw [run_append]
+      exact (step_safe chk [n] (run d pre) Op.lock rfl).2 n (by simp) (hready n hn)
+    · intro op hop
+      rcases List.mem_append.mp hop with hop | hop
+      · exact hallowed op (hpost op hop)
+      · exact htail op hop N
+
+/-- the context in which `_save_pack_names` runs (`pre` wrote the new packs of
+`mine`, `obs` are replaced packs): every executed list `pre ++ sv ++ tail` with
+`sv` of the shape of an executed save is atomic for every crash prefix -/
+theorem save_ctx_atomic (chk : Bool) (d : Disk) (atLoad mine : List Nat) (obs : Option (List Nat))
+    (ord : List File) (pre sv tail : List Op)
+    (hc : complete chk d = true)
+    (hpre : ∀ op ∈ pre, safeOp d.names op = true)
+    (hmine : ∀ n ∈ mine, n ∈ atLoad ∨ ready chk (run d pre) n = true)
+    (hobs : ∀ s, obs = some s → ∀ n ∈ s, n ∉ mine ∧ (n ∈ atLoad ∨ n ∉ d.names))
+    (htail : ∀ op ∈ tail, ∀ ns, safeOp ns op = true)
+    (hs : SaveShape (mergeNames d.names atLoad mine) (saveAllowed chk d obs ord) sv) (k : Nat) :
+    complete chk (run d ((pre ++ sv ++ tail).take k)) = true ∧
+    ((run d ((pre ++ sv ++ tail).take k)).names = d.names ∨
+     (run d ((pre ++ sv ++ tail).take k)).names = mergeNames d.names atLoad mine) := by
+  have hc' : ∀ n ∈ d.names, ready chk d n = true := by simpa [complete] using hc
+  apply shape_crash_atomic chk d pre sv tail _ _ hc hpre ?_ ?_ htail hs k
+  · intro n hn
+    have hfr := run_safe chk d.names pre d hpre
+    rcases mem_mergeNames.mp hn with ⟨hd, _⟩ | ⟨hm, hna, _⟩
+    · exact hfr.2 n hd (hc' n hd)
+    · rcases hmine n hm with h | h
+      · exact absurd h hna
+      · exact h
+  · apply saveAllowed_safe
+    intro s hs' n hn hN
+    obtain ⟨hnm, hat⟩ := hobs s hs' n hn
+    rcases mem_mergeNames.mp hN with ⟨hd, hnot⟩ | ⟨hm, _, _⟩
+    · rcases hat with hat | hat
+      · exact hnot ⟨hat, hnm⟩
+      · exact hat hd
+    · exact hnm hm
+
+/-- the write group's own pack: the executed list of a fault inside
+`open_write_stream … finish()` (prefix + `NewPack.abort()`) touches no listed
+pack -/
+theorem newPackFault_safe (chk : Bool) (ns : List Nat) (d : Disk) (tmp : File) (name : Nat) (f : Fault)
+    (ht : tmp.dir = .upload) (hn : name ∉ ns) :
+    ∀ op ∈ newPackFault chk d tmp name f, safeOp ns op = true := by
+  intro op hop
+  have hsafe := newPackOps_safe chk ns tmp name ht hn
+  unfold newPackFault at hop
+  simp only [] at hop
+  split at hop
+  · exact hsafe op (mem_cutAt hop)
+  · rcases List.mem_append.mp hop with hop | hop
+    · exact hsafe op (mem_cutAt hop)
+    · exact abortNewPack_safe ns _ tmp ht op hop
+
+/-- **A failing commit / fetch / autopack is atomic.**  Under the hypotheses of
+`commit_crash_atomic`, for EVERY fault `f` (position, before/after, kind), every
+`list_dir` order `ord`, and every crash prefix `k` of the list of operations the
+real code executes in that failing run (including its `finally:` clauses and
+`abort_write_group`): every listed pack is complete and `pack-names` is the old
+list or the one the successful operation would have written. -/
+theorem commit_fault_atomic (chk : Bool) (d : Disk) (v : View) (plan : Plan) (tmp0 new0 tmp1 new1 : Nat)
+    (hc : complete chk d = true)
+    (hv : ∀ n ∈ v.names, n ∈ v.atLoad)
+    (h0 : new0 ∉ d.names) (h1 : new1 ∉ d.names) (h01 : new0 ≠ new1) (h1v : new1 ∉ v.names)
+    (hplan : ∀ s, plan = .combine s → ∀ n ∈ s, n ∈ v.names ∨ n = new0)
+    (ord : List File) (f : Fault) (k : Nat) :
+    let ex := commitFaultWith chk d v plan tmp0 new0 tmp1 new1 ord f
+    let ops := commitOpsWith chk d v plan tmp0 new0 tmp1 new1
+    complete chk (run d (ex.take k)) = true ∧
+    ((run d (ex.take k)).names = d.names ∨ (run d (ex.take k)).names = (run d ops).names) := by
+  intro ex ops
+  have hup : ∀ t b, (upTmp t b).dir = .upload := by intro t b; simp [upTmp]
+  have hpre0 := newPackOps_safe chk d.names (upTmp tmp0 false) new0 (hup _ _) h0
+  have hr0 := finish_ready chk d (upTmp tmp0 false) new0 (hup _ _)
+  have allsafe : ∀ l : List Op, ex = l → (∀ op ∈ l, safeOp d.names op = true) →
+      complete chk (run d (ex.take k)) = true ∧
+      ((run d (ex.take k)).names = d.names ∨ (run d (ex.take k)).names = (run d ops).names) := by
+    intro l hl h
+    rw [hl]
+    have := safe_crash_atomic chk d l hc h k
+    exact ⟨this.1, Or.inl this.2⟩
+  -- a save-shaped continuation
+  have key : ∀ (pre : List Op) (mine : List Nat) (obs : Option (List Nat)) (g : Fault),
+      ex = pre ++ saveFault chk d ⟨mine, v.atLoad⟩ obs ord g →
+      ops = pre ++ saveOps chk d ⟨mine, v.atLoad⟩ obs →
+      (∀ op ∈ pre, safeOp d.names op = true) →
+      (∀ n ∈ mine, n ∈ v.atLoad ∨ ready chk (run d pre) n = true) →
+      (∀ s, obs = some s → ∀ n ∈ s, n ∉ mine ∧ (n ∈ v.atLoad ∨ n = new0)) →
+      complete chk (run d (ex.take k)) = true ∧
+      ((run d (ex.take k)).names = d.names ∨ (run d (ex.take k)).names = (run d ops).names) := by
+    intro pre mine obs g hex hops hpre hmine hobs
+    have hfin : (run d ops).names = mergeNames d.names v.atLoad mine := by
+      rw [hops, run_append, run_saveOps_names]
+    rw [hfin, hex]
+    have := save_ctx_atomic chk d v.atLoad mine obs ord pre (saveFault chk d ⟨mine, v.atLoad⟩ obs ord g) []
+      hc hpre hmine (by
+        intro s hs n hn
+        obtain ⟨a, b⟩ := hobs s hs n hn
+        refine ⟨a, ?_⟩
+        rcases b with b | rfl
+        · exact Or.inl b
+        · exact Or.inr h0) (by intro op h; cases h)
+      (saveFault_shape chk d ⟨mine, v.atLoad⟩ obs ord g) k
+    simpa using this
+  have hmine1 : ∀ n ∈ v.names ++ [new0],
+      n ∈ v.atLoad ∨ ready chk (run d (newPackOps chk (upTmp tmp0 false) new0)) n = true := by
+    intro n hn
+    simp only [List.mem_append, List.mem_singleton] at hn
+    rcases hn with hn | rfl
+    · exact Or.inl (hv n hn)
+    · exact Or.inr hr0
+  by_cases hp : f.pos < (newPackOps chk (upTmp tmp0 false) new0).length
+  · have hex : ex = newPackFault chk d (upTmp tmp0 false) new0 f := by simp [ex, commitFaultWith, hp]
+    exact allsafe _ hex (newPackFault_safe chk d.names d _ new0 f (hup _ _) h0)
+  · let g := f.shift (newPackOps chk (upTmp tmp0 false) new0).length
+    cases plan with
+    | noAutopack =>
+      have hex : ex = newPackOps chk (upTmp tmp0 false) new0
+          ++ saveFault chk d ⟨v.names ++ [new0], v.atLoad⟩ none ord g := by simp [ex, commitFaultWith, hp, g]
+      apply key _ _ none g hex rfl hpre0 hmine1
+      intro s hs; cases hs
+    | error =>
+      have hex : ex = newPackOps chk (upTmp tmp0 false) new0 := by simp [ex, commitFaultWith, hp]
+      exact allsafe _ hex hpre0
+    | combine s =>
+      cases s with
+      | nil =>
+        have hex : ex = newPackOps chk (upTmp tmp0 false) new0
+            ++ saveFault chk d ⟨v.names ++ [new0], v.atLoad⟩ (some []) ord g := by
+          simp [ex, commitFaultWith, hp, g]
+        apply key _ _ (some []) g hex rfl hpre0 hmine1
+        intro s hs n hn; cases hs; cases hn
+      | cons a t =>
+        have hs := hplan (a :: t) rfl
+        have hpre1 := newPackOps_safe chk d.names (upTmp tmp1 true) new1 (hup _ _) h1
+        by_cases hq : (f.shift (newPackOps chk (upTmp tmp0 false) new0).length).pos
+            < (newPackOps chk (upTmp tmp1 true) new1).length
+        · have hex : ex = newPackOps chk (upTmp tmp0 false) new0
+              ++ cutAt (newPackOps chk (upTmp tmp1 true) new1) g.pos g := by
+            simp [ex, commitFaultWith, hp, hq, g]
+          apply allsafe _ hex
+          intro op hop
+          rcases List.mem_append.mp hop with hop | hop
+          · exact hpre0 op hop
+          · exact hpre1 op (mem_cutAt hop)
+        · apply key (newPackOps chk (upTmp tmp0 false) new0 ++ newPackOps chk (upTmp tmp1 true) new1)
+            ((v.names ++ [new0]).filter (fun n => !(a :: t).contains n) ++ [new1]) (some (a :: t))
+            (g.shift (newPackOps chk (upTmp tmp1 true) new1).length)
+            (by simp [ex, commitFaultWith, hp, hq, g]) (by simp [ops, commitOpsWith, List.append_assoc])
+          · intro op hop
+            rcases List.mem_append.mp hop with hop | hop
+            · exact hpre0 op hop
+            · exact hpre1 op hop
+          · intro n hn
+            simp only [List.mem_append, List.mem_filter, List.mem_singleton] at hn
+            rcases hn with ⟨hn | rfl, _⟩ | rfl
+            · exact Or.inl (hv n hn)
+            · right
+              rw [run_append]
+              have hsafe := newPackOps_safe chk [n] (upTmp tmp1 true) new1 (hup _ _) (by simpa using Ne.symm h01)
+              exact (run_safe chk [n] _ _ hsafe).2 n (by simp) hr0
+            · right
+              rw [run_append]
+              exact finish_ready chk _ (upTmp tmp1 true) n (hup _ _)
+          · intro s' hs' n hn
+            cases hs'
+            refine ⟨?_, ?_⟩
+            · simp only [List.mem_append, List.mem_filter, List.mem_singleton, not_or]
+              refine ⟨fun h => by simp [hn] at h, ?_⟩
+              rintro rfl
+              rcases hs n hn with h | h
+              · exact h1v h
+              · exact h01 h.symm
+            · rcases hs n hn with h | h
+              · exact Or.inl (hv n h)
+              · exact Or.inr h
+
+/-- the same for the plan computed by the real planner -/
+theorem commit_fault_atomic_planned (chk : Bool) (d : Disk) (v : View) (counts : List (Nat × Nat))
+    (tmp0 new0 tmp1 new1 : Nat)
+    (hc : complete chk d = true)
+    (hv : ∀ n ∈ v.names, n ∈ v.atLoad)
+    (h0 : new0 ∉ d.names) (h1 : new1 ∉ d.names) (h01 : new0 ≠ new1) (h1v : new1 ∉ v.names)
+    (hcounts : ∀ p ∈ counts, p.1 ∈ v.names ∨ p.1 = new0)
+    (ord : List File) (f : Fault) (k : Nat) :
+    let ex := commitFault chk d v counts tmp0 new0 tmp1 new1 ord f
+    let ops := commitOps chk d v counts tmp0 new0 tmp1 new1
+    complete chk (run d (ex.take k)) = true ∧
+    ((run d (ex.take k)).names = d.names ∨ (run d (ex.take k)).names = (run d ops).names) := by
+  apply commit_fault_atomic chk d v (planAutopack counts) tmp0 new0 tmp1 new1 hc hv h0 h1 h01 h1v
+  intro s hs n hn
+  have := planAutopack_subset counts s hs n hn
+  simp only [List.mem_map] at this
+  obtain ⟨p, hp, rfl⟩ := this
+  exact hcounts p hp
+
+/-! ### `pack()` failing -/
+
+/-- a body of `pack()` that contains `_save_pack_names`, with a fault anywhere
+(in the packer's new pack, in the save, in the final clear) -/
+theorem packTail_atomic (chk : Bool) (d : Disk) (atLoad mine s : List Nat) (clean : Bool) (pre : List Op)
+    (ord : List File) (f : Fault)
+    (hc : complete chk d = true)
+    (hpre : ∀ op ∈ pre, safeOp d.names op = true)
+    (hmine : ∀ n ∈ mine, n ∈ atLoad ∨ ready chk (run d pre) n = true)
+    (hobs : ∀ n ∈ s, n ∉ mine ∧ n ∈ atLoad) (k : Nat) :
+    let ex := packTail chk d ⟨mine, atLoad⟩ s clean pre ord f
+    complete chk (run d (ex.take k)) = true ∧
+    ((run d (ex.take k)).names = d.names ∨ (run d (ex.take k)).names = mergeNames d.names atLoad mine) := by
+  intro ex
+  have hobs' : ∀ s', some s = some s' → ∀ n ∈ s', n ∉ mine ∧ (n ∈ atLoad ∨ n ∉ d.names) := by
+    intro s' h n hn; cases h; exact ⟨(hobs n hn).1, Or.inl (hobs n hn).2⟩
+  have ctx := fun (sv tail : List Op) htail hs =>
+    save_ctx_atomic chk d atLoad mine (some s) ord pre sv tail hc hpre hmine hobs' htail hs k
+  have hclr : ∀ (c : Bool) (d' : Disk), ∀ op ∈ (if c then clearOrd d' [] ord else []), ∀ ns, safeOp ns op = true := by
+    intro c d' op hop ns
+    cases c
+    · cases hop
+    · exact clearOrd_safe ns d' [] ord op hop
+  by_cases h1 : f.pos < pre.length
+  · have hex : ex = cutAt pre f.pos f := by simp [ex, packTail, h1]
+    rw [hex]
+    have := safe_crash_atomic chk d (cutAt pre f.pos f) hc (fun op h => hpre op (mem_cutAt h)) k
+    exact ⟨this.1, Or.inl this.2⟩
+  · by_cases h2 : f.pos < pre.length + (saveOpsOrd chk d ⟨mine, atLoad⟩ (some s) ord).length
+    · by_cases hr : saveRaises chk d (some s) ord (f.shift pre.length) = true
+      · have hex : ex = pre ++ saveFault chk d ⟨mine, atLoad⟩ (some s) ord (f.shift pre.length) ++ [] := by
+          simp [ex, packTail, h1, h2, hr]
+        rw [hex]
+        exact ctx _ [] (by intro op h; cases h) (saveFault_shape chk d ⟨mine, atLoad⟩ (some s) ord _)
+      · have hex : ex = pre ++ saveFault chk d ⟨mine, atLoad⟩ (some s) ord (f.shift pre.length)
+            ++ (if clean then clearOrd (run d (pre ++ saveFault chk d ⟨mine, atLoad⟩ (some s) ord
+                  (f.shift pre.length))) [] ord else []) := by
+          simp [ex, packTail, h1, h2, hr]
+        rw [hex]
+        exact ctx _ _ (hclr clean _) (saveFault_shape chk d ⟨mine, atLoad⟩ (some s) ord _)
+    · have hex : ex = pre ++ saveOpsOrd chk d ⟨mine, atLoad⟩ (some s) ord
+          ++ (if clean then finalClearFault (run d (pre ++ saveOpsOrd chk d ⟨mine, atLoad⟩ (some s) ord)) ord
+                (f.pos - (pre ++ saveOpsOrd chk d ⟨mine, atLoad⟩ (some s) ord).length) f else []) := by
+        simp [ex, packTail, h1, h2]
+      rw [hex]
+      refine ctx _ _ ?_ (saveOpsOrd_shape chk d ⟨mine, atLoad⟩ (some s) ord)
+      intro op hop ns
+      cases clean
+      · cases hop
+      · simp only [if_true, finalClearFault] at hop
+        split at hop
+        · exact clearOrd_safe ns _ [] ord op (mem_skipAt hop)
+        · exact clearOrd_safe ns _ [] ord op (mem_cutAt hop)
+
+/-- final `pack-names` of a `pack()` body `pre ++ _save_pack_names ++ final clear` -/
+theorem packBody_final_names (chk : Bool) (d : Disk) (v : View) (s : List Nat) (pre tail : List Op)
+    (ht : ∀ op ∈ tail, isPut op = false) :
+    (run d (pre ++ saveOps chk d v (some s) ++ tail)).names = mergeNames d.names v.atLoad v.names := by
+  rw [run_append, run_names_noPut tail _ ht, run_append, run_saveOps_names]
+
+/-- **A failing `pack()` / `pack(hint)` is atomic**: for every fault (in the
+packer's new pack, in `_save_pack_names`, in the obsoleting moves, in the final
+`_clear_obsolete_packs()`), and every crash prefix of what the real code then
+executes. -/
+theorem packSel_fault_atomic (chk : Bool) (d : Disk) (v : View) (s : List Nat) (optimal clean : Bool)
+    (tmp1 new1 : Nat)
+    (hc : complete chk d = true)
+    (hv : ∀ n ∈ v.names, n ∈ v.atLoad)
+    (hs : ∀ n ∈ s, n ∈ v.names)
+    (h1 : new1 ∉ d.names) (h1v : new1 ∉ v.names) (ord : List File) (f : Fault) (k : Nat) :
+    let ex := packFaultSel chk d v s optimal clean tmp1 new1 ord f
+    let ops := packOpsSel chk d v s optimal clean tmp1 new1
+    complete chk (run d (ex.take k)) = true ∧
+    ((run d (ex.take k)).names = d.names ∨ (run d (ex.take k)).names = (run d ops).names) := by
+  intro ex ops
+  have hup : ∀ t b, (upTmp t b).dir = .upload := by intro t b; simp [upTmp]
+  have hcol : v.names.contains new1 = false := by simpa using h1v
+  have htailP : ∀ (c : Bool) (d' : Disk), ∀ op ∈ (if c then clearOps d' [] else []), isPut op = false := by
+    intro c d' op hop
+    cases c
+    · cases hop
+    · exact clearOps_noPut d' [] op hop
+  by_cases hdis : (!chk && decide (v.names.length ≤ 1)) = true
+  · have : ex = [] := by simp [ex, packFaultSel, hdis]
+    rw [this]; simp [run, hc]
+  · by_cases hemp : s.isEmpty = true
+    · have hsn : s = [] := by simpa using hemp
+      have hex : ex = packTail chk d ⟨v.names, v.atLoad⟩ [] clean [] ord f := by
+        simp [ex, packFaultSel, hdis, hemp]
+      have hfin : (run d ops).names = mergeNames d.names v.atLoad v.names := by
+        have : ops = [] ++ saveOps chk d v (some []) ++ (if clean then clearOps (run d (saveOps chk d v (some []))) [] else []) := by
+          simp [ops, packOpsSel, hdis, hemp]
+        rw [this]
+        exact packBody_final_names chk d v [] [] _ (htailP clean _)
+      rw [hfin, hex]
+      apply packTail_atomic chk d v.atLoad v.names [] clean [] ord f hc
+      · intro op hop; cases hop
+      · intro n hn; exact Or.inl (hv n hn)
+      · intro n hn; cases hn
+    · cases optimal with
+      | true =>
+        have hall : ∀ op ∈ ex, safeOp d.names op = true := by
+          intro op hop
+          simp only [ex, packFaultSel, hdis, hemp, Bool.false_eq_true, if_false, if_true,
+            Bool.not_true, Bool.and_false, Bool.false_and] at hop
+          have hb : ∀ op ∈ [Op.beginWrite (upTmp tmp1 true), Op.endWrite (upTmp tmp1 true), Op.delete (upTmp tmp1 true)],
+              safeOp d.names op = true := by
+            intro op h
+            simp only [List.mem_cons, List.not_mem_nil, or_false] at h
+            rcases h with rfl | rfl | rfl
+            · simp [safeOp, upload_not_touches _ _ (hup tmp1 true)]
+            · rfl
+            · simp [safeOp, upload_not_touches _ _ (hup tmp1 true)]
+          split at hop
+          · exact hb op (mem_cutAt hop)
+          · rcases List.mem_append.mp hop with hop | hop
+            · exact hb op hop
+            · cases clean
+              · cases hop
+              · simp only [if_true, finalClearFault] at hop
+                split at hop
+                · exact clearOrd_safe _ _ [] ord op (mem_skipAt hop)
+                · exact clearOrd_safe _ _ [] ord op (mem_cutAt hop)
+        have h := safe_crash_atomic chk d ex hc hall k
+        exact ⟨h.1, Or.inl h.2⟩
+      | false =>
+        have hex : ex = packTail chk d ⟨v.names.filter (fun n => !s.contains n) ++ [new1], v.atLoad⟩ s clean
+            (newPackOps chk (upTmp tmp1 true) new1) ord f := by
+          simp [ex, packFaultSel, hdis, hemp, h1v]
+        have hfin : (run d ops).names
+            = mergeNames d.names v.atLoad (v.names.filter (fun n => !s.contains n) ++ [new1]) := by
+          have : ops = newPackOps chk (upTmp tmp1 true) new1
+              ++ saveOps chk d ⟨v.names.filter (fun n => !s.contains n) ++ [new1], v.atLoad⟩ (some s)
+              ++ (if clean then clearOps (run d (newPackOps chk (upTmp tmp1 true) new1
+                    ++ saveOps chk d ⟨v.names.filter (fun n => !s.contains n) ++ [new1], v.atLoad⟩ (some s))) []
+                  else []) := by
+            simp [ops, packOpsSel, hdis, hemp, h1v]
+          rw [this]
+          exact packBody_final_names chk d _ s _ _ (htailP clean _)
+        rw [hfin, hex]
+        apply packTail_atomic chk d v.atLoad _ s clean _ ord f hc
+        · exact newPackOps_safe chk d.names _ new1 (hup _ _) h1
+        · intro n hn
+          simp only [List.mem_append, List.mem_filter, List.mem_singleton] at hn
+          rcases hn with ⟨hn, _⟩ | rfl
+          · exact Or.inl (hv n hn)
+          · exact Or.inr (finish_ready chk d _ n (hup _ _))
+        · intro n hn
+          refine ⟨?_, hv n (hs n hn)⟩
+          simp only [List.mem_append, List.mem_filter, List.mem_singleton, not_or]
+          refine ⟨fun h => by simp [hn] at h, ?_⟩
+          rintro rfl
+          exact h1v (hs n hn)
+
+/-- **A failing `pack()` / `pack(hint)` is atomic** (hint form) -/
+theorem pack_fault_atomic (chk : Bool) (d : Disk) (v : View) (hint : Option (List Nat)) (optimal clean : Bool)
+    (tmp1 new1 : Nat)
+    (hc : complete chk d = true)
+    (hv : ∀ n ∈ v.names, n ∈ v.atLoad)
+    (h1 : new1 ∉ d.names) (h1v : new1 ∉ v.names) (ord : List File) (f : Fault) (k : Nat) :
+    let ex := packFault chk d v hint optimal clean tmp1 new1 ord f
+    let ops := packOps chk d v hint optimal clean tmp1 new1
+    complete chk (run d (ex.take k)) = true ∧
+    ((run d (ex.take k)).names = d.names ∨ (run d (ex.take k)).names = (run d ops).names) :=
+  packSel_fault_atomic chk d v (hintSel v hint) optimal clean tmp1 new1 hc hv (hintSel_subset v hint) h1 h1v ord f k
+
+/-! ### a failed `_save_pack_names` is all-or-nothing -/
+
+/-- **Exception atomicity of `_save_pack_names`.**  Whatever the fault: if the
+exception was raised before the `put_file` of `pack-names` completed, the
+method leaves `pack-names` untouched; otherwise `pack-names` is exactly the
+merged list the successful call writes. -/
+theorem save_fault_names (chk : Bool) (d0 d : Disk) (v : View) (obs : Option (List Nat)) (ord : List File)
+    (f : Fault) :
+    (f.beforePut → (run d0 (saveFault chk d v obs ord f)).names = d0.names) ∧
+    (¬ f.beforePut → (run d0 (saveFault chk d v obs ord f)).names = saveN d v) := by
+  rcases saveFault_shape' chk d v obs ord f with ⟨hb, h | h | h⟩ | ⟨hb, post, h, hpost⟩
+  · exact ⟨fun _ => by rw [h]; rfl, fun hn => absurd hb hn⟩
+  · exact ⟨fun _ => by rw [h]; rfl, fun hn => absurd hb hn⟩
+  · exact ⟨fun _ => by rw [h]; rfl, fun hn => absurd hb hn⟩
+  · refine ⟨fun hy => absurd hy hb, fun _ => ?_⟩
+    rw [h, run_cons, run_cons,
+      run_names_noPut post _ (fun op hop => saveAllowed_noPut chk d obs ord op (hpost op hop))]
+    rfl
+
+/-- **Witness: why `_obsolete_packs` must stay outside the `finally:`.**  The
+model variant in which the obsoleting moves run in the `finally:` clause of
+`_save_pack_names` (so also after a failed `put_file`): `pack()` of two packs
+whose `pack-names` write fails with an I/O error leaves `pack-names` listing
+both old packs while their files are in `obsolete_packs/`. -/
+theorem obsolete_in_finally_witness :
+    let d : Disk := ⟨[0, 1], packFiles true 0 ++ packFiles true 1, [], false⟩
+    let ex := newPackOps true (upTmp 4 true) 5
+      ++ saveFaultObsoleteInFinally true d ⟨[5], [0, 1]⟩ [0, 1] ⟨1, false, .io⟩
+    complete true d = true ∧ (run d ex).names = [0, 1] ∧ complete true (run d ex) = false ∧
+    -- the real error path on the same input: lock, unlock, nothing else
+    (newPackOps true (upTmp 4 true) 5 ++ saveFault true d ⟨[5], [0, 1]⟩ (some [0, 1]) [] ⟨1, false, .io⟩
+      = packFault true d ⟨[0, 1], [0, 1]⟩ none false false 4 5 [] ⟨14, false, .io⟩) ∧
+    complete true (run d (packFault true d ⟨[0, 1], [0, 1]⟩ none false false 4 5 [] ⟨14, false, .io⟩)) = true := by
+  decide
+
+/-! ### after a crash or a failure the next writer starts from a good state -/
+
+/-- **Crash, then retry.**  Take ANY crash prefix `k` of a commit / fetch /
+autopack, break the stale lock, and let a fresh process (which loads
+`pack-names` as it finds it) run another write group with fresh pack names:
+the hypotheses of `commit_crash_atomic` hold again, so that operation is
+crash-atomic too.  (The same statement with `commitFaultWith` in place of the
+prefix follows from `commit_fault_atomic` in the same way.) -/
+theorem crash_then_retry (chk : Bool) (d : Disk) (v : View) (plan : Plan) (tmp0 new0 tmp1 new1 : Nat)
+    (hc : complete chk d = true)
+    (hv : ∀ n ∈ v.names, n ∈ v.atLoad)
+    (h0 : new0 ∉ d.names) (h1 : new1 ∉ d.names) (h01 : new0 ≠ new1) (h1v : new1 ∉ v.names)
+    (hplan : ∀ s, plan = .combine s → ∀ n ∈ s, n ∈ v.names ∨ n = new0) (k : Nat)
+    (plan' : Plan) (tmp0' new0' tmp1' new1' : Nat) :
+    let d' : Disk := { run d ((commitOpsWith chk d v plan tmp0 new0 tmp1 new1).take k) with locked := false }
+    new0' ∉ d'.names → new1' ∉ d'.names → new0' ≠ new1' →
+    (∀ s, plan' = .combine s → ∀ n ∈ s, n ∈ d'.names ∨ n = new0') →
+    ∀ k', let ops' := commitOpsWith chk d' ⟨d'.names, d'.names⟩ plan' tmp0' new0' tmp1' new1'
+      complete chk (run d' (ops'.take k')) = true ∧
+      ((run d' (ops'.take k')).names = d'.names ∨ (run d' (ops'.take k')).names = (run d' ops').names) := by
+  intro d' g0 g1 g01 gplan k'
+  have hc' : complete chk d' = true :=
+    (commit_crash_atomic chk d v plan tmp0 new0 tmp1 new1 hc hv h0 h1 h01 h1v hplan k).1
+  exact commit_crash_atomic chk d' ⟨d'.names, d'.names⟩ plan' tmp0' new0' tmp1' new1' hc'
+    (fun n hn => hn) g0 g1 g01 g1 gplan k'
+
+/-- the same after a FAILED commit (any fault, any crash prefix of its error
+handling) -/
+theorem fault_then_retry (chk : Bool) (d : Disk) (v : View) (plan : Plan) (tmp0 new0 tmp1 new1 : Nat)
+    (hc : complete chk d = true)
+    (hv : ∀ n ∈ v.names, n ∈ v.atLoad)
+    (h0 : new0 ∉ d.names) (h1 : new1 ∉ d.names) (h01 : new0 ≠ new1) (h1v : new1 ∉ v.names)
+    (hplan : ∀ s, plan = .combine s → ∀ n ∈ s, n ∈ v.names ∨ n = new0) (ord : List File) (f : Fault) (k : Nat)
+    (plan' : Plan) (tmp0' new0' tmp1' new1' : Nat) :
+    let d' : Disk := { run d ((commitFaultWith chk d v plan tmp0 new0 tmp1 new1 ord f).take k) with locked := false }
+    new0' ∉ d'.names → new1' ∉ d'.names → new0' ≠ new1' →
+    (∀ s, plan' = .combine s → ∀ n ∈ s, n ∈ d'.names ∨ n = new0') →
+    ∀ k', let ops' := commitOpsWith chk d' ⟨d'.names, d'.names⟩ plan' tmp0' new0' tmp1' new1'
+      complete chk (run d' (ops'.take k')) = true ∧
+      ((run d' (ops'.take k')).names = d'.names ∨ (run d' (ops'.take k')).names = (run d' ops').names) := by
+  intro d' g0 g1 g01 gplan k'
+  have hc' : complete chk d' = true :=
+    (commit_fault_atomic chk d v plan tmp0 new0 tmp1 new1 hc hv h0 h1 h01 h1v hplan ord f k).1
+  exact commit_crash_atomic chk d' ⟨d'.names, d'.names⟩ plan' tmp0' new0' tmp1' new1' hc'
+    (fun n hn => hn) g0 g1 g01 g1 gplan k'
+
+/-! ### non-vacuity of the fault theorems -/
+
+/-- a commit that autopacks two packs; the `put_file` of `pack-names` (operation
+27 of 48) fails with an I/O error: the real error path runs lock, unlock and
+nothing else (28 operations), `pack-names` keeps the old list; when the
+exception arrives just AFTER the `put_file`, the new list is in place and the
+old packs are NOT moved away (they stay behind, unlisted) -/
+example :
+    let d : Disk := ⟨[0, 1], packFiles true 0 ++ packFiles true 1 ++ [⟨.obsolete, 7, .pack⟩], [], false⟩
+    let v : View := ⟨[0, 1], [0, 1]⟩
+    let ex := commitFaultWith true d v (.combine [0, 1, 2]) 10 2 11 3 []
+    (commitOpsWith true d v (.combine [0, 1, 2]) 10 2 11 3)[27]? = some (Op.putNames [3]) ∧
+    (ex ⟨27, false, .io⟩).length = 28 ∧ (run d (ex ⟨27, false, .io⟩)).names = [0, 1] ∧
+    (run d (ex ⟨27, false, .io⟩)).locked = false ∧
+    (ex ⟨27, true, .interrupt⟩).length = 29 ∧ (run d (ex ⟨27, true, .interrupt⟩)).names = [3] ∧
+    ready true (run d (ex ⟨27, true, .interrupt⟩)) 0 = true ∧
+    -- a TransportError on the first obsoleting move is skipped, the rest runs
+    (ex ⟨30, false, .transport⟩).length = 47 ∧ (ex ⟨30, false, .io⟩).length = 30 ∧
+    -- a fault while finishing the write group's own pack: NewPack.abort()
+    ex ⟨5, false, .io⟩ = (commitOpsWith true d v (.combine [0, 1, 2]) 10 2 11 3).take 5
+      ++ [Op.endWrite (upTmp 10 false), Op.delete (upTmp 10 false)] := by
+  decide
+
+/-- `pack(clean_obsolete_packs=True)` of two packs (34 operations; hypotheses of
+`pack_fault_atomic` as in the example of `pack_crash_atomic`): a `TransportError`
+on the second deletion of the final clear is skipped (33 operations executed,
+the operation completes), an I/O error there stops it (25 executed, raises); an
+interrupt inside the packer's `finish()` leaves everything as it was -/
+example :
+    let d : Disk := ⟨[0, 1], packFiles false 0 ++ packFiles false 1, [], false⟩
+    let v : View := ⟨[0, 1], [0, 1]⟩
+    (packFault false d v none false true 4 5 [] ⟨25, false, .transport⟩).length = 33 ∧
+    packRaisesSel false d v (hintSel v none) false true 4 5 [] ⟨25, false, .transport⟩ = false ∧
+    (packFault false d v none false true 4 5 [] ⟨25, false, .io⟩).length = 25 ∧
+    packRaisesSel false d v (hintSel v none) false true 4 5 [] ⟨25, false, .io⟩ = true ∧
+    (run d (packFault false d v none false true 4 5 [] ⟨25, false, .io⟩)).names = [5] ∧
+    (run d (packFault false d v none false true 4 5 [] ⟨6, true, .interrupt⟩)).names = [0, 1] ∧
+    complete false (run d (packFault false d v none false true 4 5 [] ⟨6, true, .interrupt⟩)) = true := by
   decide
 
 end BreezyVerif.C04
